@@ -215,7 +215,15 @@ def units(tier):
     for (t, n, m) in ([('int', 2, 3), ('long', 2, 3)] if tier == 'quick' else [('int', 2, 3), ('long', 2, 3), ('char', 4, 4), ('long long', 2, 2), ('short', 3, 5)]):
         insts.append(array2_inst('store', t, n, m, tier))
         insts.append(array2_inst('load', t, n, m, tier))
-    return [Unit('C07_guest_bytes', insts)]
+    # "copy_and_verify on a pointer, or copy_and_verify_range - decodes exactly those bytes": the content instances of C09
+    # (sequential view; the verifier's precondition is the guest decoding of the source bytes, element-wise for ranges)
+    from . import C09
+    cinsts = []
+    for it in C09.content_insts(tier):
+        it.name = it.name.replace('c09_content_', 'c07_copy_and_verify_')
+        it.prop = PROP
+        cinsts.append(it)
+    return [Unit('C07_guest_bytes', insts), Unit('C07_copy_and_verify', cinsts, extra_cpp=C09.EXTRA_CPP)]
 
 
 ASSUMPTIONS = [
